@@ -13,7 +13,13 @@ of real UdpClient <-> ServerClientConnection sessions; every application payload
 of the Coq text and of BitField) classifies every copy as inside / outside the receiver's
 window on arrival: inside => the copy must be dropped whole (deep snapshot equality except
 stats.dropped, see props/C01.py) and nothing may be delivered again; a duplicate accepted or
-delivered OUTSIDE the window is the known finding D16, INSIDE it is a violation."""
+delivered OUTSIDE the window is the known finding D16, INSIDE it is a violation.
+
+At-most-once UP TO THE APPLICATION (handler_worlds): the hand-over from incoming_messages to
+EventHandler.handle_message in the real server loop (UdpServerThread.run behind every front door, harness/srvx.py)
+with handlers that raise in every kind of event: calls of handle_message per unique payload <= 1, messages out of
+UdpClient.getMessages per unique payload <= 1, one stats.dropped per copy; the same worlds are replayed on Server.v
+(unit srv_run)."""
 import struct, random, logging
 from harness import lib
 from harness import connsim as S
@@ -31,7 +37,14 @@ ASSUMPTIONS = [
     "C04_exact / C04_partial speak about authentic datagrams carrying data messages (APP, APP_FRAGMENT with a complete 6-byte "
     "fragment header, KEEP_ALIVE, DISCONNECT) on a connection that holds a key — the traffic of an established connection",
 ]
-TRUSTED = ["harness/props/C04.py ghost window (true-index bookkeeping used to classify copies as inside/outside the window)"]
+TRUSTED = ["harness/props/C04.py ghost window (true-index bookkeeping used to classify copies as inside/outside the window)",
+           "harness/srvx.py (front doors of the stepped server; ScriptedSocket stands for the OS socket under _UdpServer.run)"]
+HANDLER_RULE = ("server-loop worlds (harness/srvx.py, every front door): 1-3 real UdpClients, 0-5 unique messages per client and tick (several per "
+                "datagram, all retry modes), every datagram possibly duplicated back to back, recent datagrams replayed (always well inside the "
+                "32-datagram window), server datagrams duplicated towards the clients, an application whose handler raises with probability "
+                "0 / 0.15 / 0.4 / 0.7 in connect, handle_message, disconnect (and a quarter of that in update) and echoes from inside handle_message; "
+                "observed at EventHandler.handle_message, UdpClient.getMessages and stats.dropped; non-trivial = world with >= 10 hand-overs, "
+                ">= 5 copies and at least one exception raised by handle_message")
 
 T = S.TICKS
 RING, HALF = 65535, 32767
@@ -452,6 +465,157 @@ def sc_mangled(run, rng, sender, start, g, per):
     return st
 
 
+
+# ------------------------------------------------------------------ at-most-once up to the application's handler
+
+def handler_world(run, rng, idx, front, steps, p_raise):
+    """the hand-over from the connection to the application: real UdpClients around the real server loop
+    (harness/srvsim.py stepping, harness/srvx.py front doors), every application payload unique, several messages
+    per datagram, a network that duplicates datagrams back to back / one tick late / replays recent ones, in both
+    directions, and an application whose handler RAISES in every kind of event (connect, message, disconnect,
+    update).  Observed where the property says: calls of EventHandler.handle_message per payload (at most one),
+    messages returned by UdpClient.getMessages per payload (at most one), stats.dropped (one per copy)."""
+    from harness import srvsim as V, srvx as X
+    T_ = S.TICKS
+    raised_at = []
+
+    def policy(sim, n, ev):
+        acts = []
+        if ev[0] == 4 and rng.random() < 0.5:
+            for c in sim.ctxt.connections.values():
+                if sim.cid(c) == ev[1]:
+                    acts.append([1, V.av(c.addr), b"echo:" + ev[3][:200], rng.choice([0, 1, -1]), -1])
+        r = ev[0] in (2, 3, 4, 5) and rng.random() < (p_raise if ev[0] != 2 else p_raise / 4)
+        if r:
+            raised_at.append((len(sim.steps) - 1, ev[0]))
+        return acts, r
+    w = X.WorldX(run, rng, cfg=(5 * T_, 2 * T_, 1536, T_), policy=policy, full=True, front=front)
+    sim = w.sim
+    addrs = [("10.4.%d.%d" % (idx % 200, i + 1), 5000 + i) for i in range(rng.choice([1, 2, 3]))]
+    copies = {a: 0 for a in addrs}
+    copy_log = {}
+    down_copies = [0]
+    last_down = {}
+
+    def down(addr, data):
+        out = [data]
+        if rng.random() < 0.25:
+            out.append(data)
+            down_copies[0] += 1
+        if addr in last_down and rng.random() < 0.15:
+            out.append(last_down[addr])
+            down_copies[0] += 1
+        last_down[addr] = data
+        return out
+    w.down = down
+    sent = {}
+    recent = {a: [] for a in addrs}
+    try:
+        recs = [w.add_client(a) for a in addrs]
+        serial = 0
+        for st in range(steps):
+            for i, rec in enumerate(recs):
+                hc = rec["hc"]
+                if hc.status() == 2:
+                    for _ in range(rng.choice([0, 1, 2, 3, 5])):
+                        serial += 1
+                        p = b"w%d-c%d-%d-" % (idx, i, serial) + bytes(rng.randrange(256) for _ in range(rng.choice([0, 2, 30])))
+                        sent[p] = (rec["addr"], st)
+                        hc.client.send(p, retry=rng.choice([0, 0, 1, -1]))
+            extra = []
+            for a in addrs:
+                if sim.ctxt.connections.get(a) is None:
+                    continue
+                if recent[a] and rng.random() < 0.3:
+                    d = rng.choice(recent[a][-12:])       # a recent datagram again (well inside the 32-datagram window)
+                    extra.append((a, d))
+                    copies[a] += 1
+                    copy_log.setdefault(st, []).append([list(a), "replay", S.unpack_header(d)[2]])
+
+            def transform(batch, st=st):
+                out = []
+                for (a, d) in batch:
+                    out.append((a, d))
+                    genuine = a in copies and len(d) >= 20 and d[12] not in (1, 3) and sim.ctxt.connections.get(a) is not None
+                    if genuine and d not in recent[a]:
+                        recent[a].append(d)
+                        if rng.random() < 0.3:
+                            out.append((a, d))
+                            copies[a] += 1
+                            copy_log.setdefault(st, []).append([list(a), "duplicate", S.unpack_header(d)[2]])
+                return out
+            if not w.step(rng.choice([150, 300, 300, 600]), extra, transform=transform):
+                break
+        w.finish()
+        if sim.internal:
+            raise RuntimeError("harness-internal problem: %s" % sim.internal[:3])
+        diff = sim.check_model()
+        # ---- oracle: at most one hand-over per payload, at the handler
+        seen = {}
+        step = 0
+        for i, o in enumerate(sim.log):
+            if o == [0, [2]]:
+                step += 1
+            if o[0] == 0 and o[1][0] == 4:
+                pl = bytes(o[1][3])
+                seen.setdefault(pl, []).append(step)
+        base = {"scenario": "server-loop hand-over", "world": idx, "front": front, "p_raise": p_raise, "clients": len(addrs)}
+        for pl, where in seen.items():
+            if len(where) > 1:
+                k = where[1]
+                case = dict(base, level="handler", window="inside", payload=pl[:40], deliveries=len(where), ticks=where[:4],
+                            handler_raised_before=[list(x) for x in raised_at if x[0] <= k][-3:],
+                            copies_in_tick=copy_log.get(k - 1, [])[:4],
+                            datagrams_in_tick=[[list(a), S.unpack_header(d)[2], d[12]] for a, d in sim.steps[k][1] if len(d) >= 20 and a in copies][:6]
+                            if k < len(sim.steps) else [])
+                run.oracle_violation("message handed to the application more than once", case, "UdpServerThread.run -> EventHandler.handle_message")
+            if pl not in sent:
+                run.oracle_violation("handler received a payload nobody sent", dict(base, payload=pl[:40]), "UdpServerThread.run")
+        # ---- the other direction: UdpClient.getMessages
+        for i, rec in enumerate(recs):
+            cnt = {}
+            for g in rec["hc"].got:
+                cnt[g] = cnt.get(g, 0) + 1
+            for g, c in cnt.items():
+                if c > 1:
+                    run.oracle_violation("message handed to the application more than once",
+                                         dict(base, level="client getMessages", window="inside", payload=g[:40], deliveries=c), "UdpClient.getMessages")
+        # ---- every copy counted as dropped (all copies are well inside the datagram window)
+        for a in addrs:
+            objs = [c for c in sim.keep if getattr(c, "addr", None) == a and hasattr(c, "stats")]
+            got = sum(c.stats.dropped for c in objs)
+            if objs and not sim.died and got != copies[a]:
+                run.oracle_violation("duplicate datagram not counted as dropped exactly once",
+                                     dict(base, level="datagram", window="inside", addr=list(a), copies=copies[a], dropped=got),
+                                     "ConnectionBase._recv_datagram")
+        run.evaluations += len(seen)
+        run.count("handler_worlds")
+        run.count("handler_world_payloads_handed_over", len(seen))
+        run.count("handler_world_datagram_copies", sum(copies.values()))
+        run.count("handler_world_handler_exceptions", len(raised_at))
+        run.count("handler_world_downstream_copies", down_copies[0])
+        kinds = set(k for _, k in raised_at)
+        if len(seen) >= 10 and sum(copies.values()) >= 5 and 4 in kinds:
+            run.nt(("handler-world", idx, front, len(seen), tuple(sorted(kinds))))
+        return {"world": idx, "front": front, "steps": len(sim.steps), "raised_kinds": sorted(kinds),
+                "first_difference": lib.jsonable(diff)}, diff
+    finally:
+        w.close()
+
+
+def handler_worlds(run, rng, n, steps):
+    from harness import srvx as X
+    cases, impl, mod = [], [], []
+    for i in range(n):
+        with X.logging_enabled():
+            c, diff = handler_world(run, rng, i, X.FRONTS[i % len(X.FRONTS)], steps, [0.15, 0.4, 0.7, 0.0][(i // len(X.FRONTS)) % 4])
+        cases.append(c)
+        impl.append("agree")
+        mod.append("agree" if not diff else "differ")
+    run.compare("srv_run", cases, impl, mod)
+    if run.dist.get("handler_world_handler_exceptions", 0) == 0 or run.dist.get("handler_world_datagram_copies", 0) == 0:
+        raise RuntimeError("no raising handler / no duplicate in the server-loop worlds: the harness is not exercising the property")
+
 def run(run):
     logging.disable(logging.CRITICAL)
     OUTSIDE_RECORDS[0] = 0
@@ -479,6 +643,8 @@ def run(run):
                 streams.append(sc_random(run, rng, sender, start, 600 if thorough else 150, 45, 0.3, 0.2))
             if thorough:
                 streams.append(sc_random(run, rng, sender, start, 1500, 300, 0.4, 0.3))
+    handler_worlds(run, rng, 96 if thorough else 12, 80 if thorough else 50)
+    run.rules.append(HANDLER_RULE)
     copies = sum(s.copies for s in streams)
     dup_in = sum(1 for s in streams for f in s.gp.flags if f)
     run.count("streams", len(streams))
